@@ -2,7 +2,8 @@
 Model of `expr.toidentifier(value)` (expr.py 162-201): the part of an auto-generated reference name
 `constant_<ident>` that is derived from the VALUE of an unnamed constant (`make_ref`, expr.py 219-224).
 The "distinct sub-expressions never share a variable" clause of C05 needs this name to be injective in
-the value; it is not (see Props/C05.lean `const_name_witness`).
+the value (two historical failures, repaired in /repo by a45d4e7 and b8b6842, are kept as regression
+witnesses in Props/C05.lean `const_name_regression`).
 Hand-written; tied to the code by `fav/props/c05.py` through `Drivers/Printer.lean` (command `I`: the
 identifier of seeded values, and every printed graph uses the names computed here).
 
@@ -60,9 +61,16 @@ def bitLength (n : Nat) : Nat := if n == 0 then 0 else Nat.log2 n + 1
 
 def hexNat (n : Nat) : String := String.ofList (Nat.toDigits 16 n)
 
-/-- `"".join(map(hex, value.tobytes()[::-1])).replace("0x", "")`: bytes from the most significant one,
-each WITHOUT zero padding -/
+/-- two hex digits of a byte -/
+def hexByte (b : Nat) : String := hexNat (b / 16 % 16) ++ hexNat (b % 16)
+
+/-- `value.tobytes()[::-1].hex()`: bytes from the most significant one, two hex digits each
+(since /repo b8b6842; before, `hex(byte)` without zero padding: see `hexBytesOld`) -/
 def hexBytes (w bits : Nat) : String :=
+  String.join ((List.range (w / 8)).reverse.map fun k => hexByte (bits / 2 ^ (8 * k) % 256))
+
+/-- the naming before /repo b8b6842 (regression witness only): bytes WITHOUT zero padding -/
+def hexBytesOld (w bits : Nat) : String :=
   String.join ((List.range (w / 8)).reverse.map fun k => hexNat (bits / 2 ^ (8 * k) % 256))
 
 /-- `toidentifier` of a Python float (`np = false`, width 64) or of a numpy floating scalar -/
@@ -74,7 +82,9 @@ def identFloat (np : Bool) (w bits : Nat) : Except String String :=
     match integral m x with
     | some n =>
       if bitLength n ≤ (if np then w else 64) then
-        .ok ("f" ++ identInt (if neg then -(n : Int) else n))
+        -- `-0.0` is `fneg0` (python float and numpy floating alike) since /repo a45d4e7; before, `f0`
+        if n == 0 && neg then .ok "fneg0"
+        else .ok ("f" ++ identInt (if neg then -(n : Int) else n))
       else .ok (if np then "f0x" ++ hexBytes w bits else "fx" ++ hexNat bits)
     | none => .ok (if np then "f0x" ++ hexBytes w bits else "fx" ++ hexNat bits)
 
